@@ -190,8 +190,8 @@ def rand_rest(rng, *, hostile=0.5, allow_sigs=True) -> Note:
     return Note(dur=dur, dots=dots, letters='r', rest=True, sigs=sigs)
 
 
-def rand_chord(rng, *, hostile=0.5, allow_acc=True, allow_sigs=True, allow_grace=True) -> Chord:
-    n = rng.choice([2, 2, 3, 3, 4])
+def rand_chord(rng, *, hostile=0.5, allow_acc=True, allow_sigs=True, allow_grace=True, sizes=(2, 2, 3, 3, 4), max_sigs=3) -> Chord:
+    n = rng.choice(list(sizes))
     has_acc = allow_acc and rng.random() < 0.5
     notes = []
     with_rest = rng.random() < 0.08   # a rest inside a chord: only in chords without any signifier (they are shared)
@@ -202,7 +202,7 @@ def rand_chord(rng, *, hostile=0.5, allow_acc=True, allow_sigs=True, allow_grace
             notes.append(rand_rest(rng, hostile=hostile, allow_sigs=False))
             continue
         note = rand_note(rng, hostile=hostile, allow_grace=False, allow_acc=has_acc, allow_display=False,
-                         max_sigs=3, allow_sigs=allow_sigs, allow_nodur=False, chord_has_acc=has_acc)
+                         max_sigs=max_sigs, allow_sigs=allow_sigs, allow_nodur=False, chord_has_acc=has_acc)
         notes.append(note)
     if has_acc and not any(x.acc for x in notes if not x.rest):
         for x in notes:
